@@ -251,6 +251,12 @@ fn clamp_gram_determinant(mut det: f64) -> Result<f64, CircumcenterError> {
 /// - non-finite => NaN
 #[inline]
 fn gram_determinant_ldlt<const D: usize>(gram_matrix: Matrix<D>) -> f64 {
+    // Edge products of finite but huge coordinates overflow to infinity; la-stack's LDLT
+    // checks symmetry with a debug assertion that panics on `inf - inf = NaN` before it gets
+    // to report `NonFinite`. Report such matrices as non-finite ourselves.
+    if (0..D).any(|i| (0..D).any(|j| !matrix_get(&gram_matrix, i, j).is_finite())) {
+        return f64::NAN;
+    }
     match gram_matrix.ldlt(DEFAULT_SINGULAR_TOL) {
         Ok(ldlt) => ldlt.det(),
         Err(LaError::Singular { .. }) => 0.0,
